@@ -321,6 +321,10 @@ def run(rep, ix, tier):
     check_len(rep, ix)
     check_dtype(rep, ix)
     check_x(rep, ix)
+    # frame values are decoded by the RP66V1 representation-code readers: same rule as C07 / C03
+    from . import C07
+    C07.run_rp66(rep, ix)
+    rep.floor('R-C07-VALUE', 25)
     rep.floor('R-C04-PRED', 10)
     rep.floor('R-C04-SEL', 12)
     rep.floor('R-C04-LEN', 7)
